@@ -161,16 +161,29 @@ def _no_class_test(test, var, prefixes):
 )
 def r24_3(ctx, rep):
     R = "R24.3"
-    a = ctx.func(SYM, CLS + ".exitComponentRef", R)
-    b = ctx.func(SYM, CLS + ".exitSymbol", R)
+    from ..pyutil import renamed_copy
+
+    def canon(fn):
+        """the handler with the local that holds the mangled name called `name` and its node parameter called `tree`"""
+        roles = {}
+        for s_ in fn.body:
+            if isinstance(s_, ast.Assign) and isinstance(s_.targets[0], ast.Name) and isinstance(s_.value, ast.Call) and isinstance(s_.value.func, ast.Attribute) \
+                    and s_.value.func.attr == "replace":
+                roles[s_.targets[0].id] = "name"
+        if len(fn.args.args) > 1:
+            roles[fn.args.args[1].arg] = "tree"
+        return renamed_copy(fn, {k: v for k, v in roles.items() if k != v})
+
+    a = canon(ctx.func(SYM, CLS + ".exitComponentRef", R))
+    b = canon(ctx.func(SYM, CLS + ".exitSymbol", R))
 
     def parts(fn):
         rep_st, loop = None, None
         for s in fn.body:
             if isinstance(s, ast.Assign) and isinstance(s.value, ast.Call) and isinstance(s.value.func, ast.Attribute) and s.value.func.attr == "replace":
-                rep_st = ast.dump(s)
+                rep_st = norm(s)
             if isinstance(s, ast.While):
-                loop = ast.dump(s)
+                loop = norm(s)
         return rep_st, loop
 
     pa, pb = parts(a), parts(b)
